@@ -766,3 +766,17 @@ for _d in (True, False):
     _reg(_GNthNumba, "nth", f"group-wise form, Numba twin (source level), drop_na={_d}", drop=_d)
     _reg(_GNthNumba, "first", f"group-wise form, Numba twin (source level), drop_na={_d}", drop=_d, fixed=0)
     _reg(_GNthNumba, "last", f"group-wise form, Numba twin (source level), drop_na={_d}", drop=_d, fixed=-1)
+
+
+def _numba_twin(cls, **attrs):
+    """the same group-wise contract with USE_NUMBA on and a Numba-eligible column: the code path goes through the *_numba twin"""
+    base = dict(prop="C08", also=("C07",), callees=NUMBA_GROUP_CALLEES, config={"USE_NUMBA": z3.BoolVal(True)}, **attrs)
+    C = type(cls.__name__ + "_numba", (cls,), dict(base, variant=cls.variant.replace("group-wise form", "group-wise form, Numba twin (source level)")))
+    return register(C)
+
+
+import pyvc.contract as _pc
+for _c in list(_pc.REGISTRY):
+    if getattr(_c, "file", None) == F and getattr(_c, "prop", None) == "C07" and "group-wise form" in (getattr(_c, "variant", "") or "") \
+            and "Numba" not in _c.variant and _c.qualname not in ("nth", "first", "last", "mode"):
+        _numba_twin(_c)
